@@ -109,7 +109,7 @@ func (w *ixWorld) listing(ps []ixPair) string {
 
 func (w *ixWorld) exec(f []string) string {
 	switch f[0] {
-	case "get", "getf", "getc":
+	case "get", "getf", "getc", "gettf", "getft":
 		i64, _ := strconv.Atoi(f[1])
 		i := uint32(i64)
 		var p *ixStore
@@ -118,6 +118,10 @@ func (w *ixWorld) exec(f []string) string {
 			p = w.s.Get(i)
 		case "getf":
 			p = w.s.Get(i, false)
+		case "gettf": // only the first optional argument counts
+			p = w.s.Get(i, true, false)
+		case "getft":
+			p = w.s.Get(i, false, true)
 		default:
 			p = w.s.Get(i, true)
 		}
@@ -129,7 +133,7 @@ func (w *ixWorld) exec(f []string) string {
 			if ans != "s"+strconv.Itoa(h) {
 				w.fail("keyed-store", fmt.Sprintf("Get(%d) returned %s, want s%d", i, ans, h), w.sig("Get", "same-storage"))
 			}
-		case f[0] == "getc":
+		case f[0] == "getc" || f[0] == "gettf":
 			if p == nil || w.ids[p] != known || p.Size() != 0 {
 				w.fail("keyed-store", fmt.Sprintf("Get(%d,true) did not create a fresh empty storage (%s)", i, ans), w.sig("Get", "fresh-storage"))
 			}
@@ -262,6 +266,11 @@ var ixContainer = container{
 				h = rng.Intn(created + 1) // sometimes one past the last handle
 			}
 			switch k := rng.Intn(100); {
+			case k < 3:
+				ops = append(ops, fmt.Sprintf("ix gettf %d", x))
+				created++
+			case k < 5:
+				ops = append(ops, fmt.Sprintf("ix getft %d", x))
 			case k < 22:
 				ops = append(ops, fmt.Sprintf("ix getc %d", x))
 				created++ // upper bound: not every getc creates
@@ -289,7 +298,7 @@ var ixContainer = container{
 	},
 	corpus: [][]string{
 		{"ix new", "ix get 1", "ix getc 1", "ix getc 1", "ix sset 0 2 7", "ix getc 2", "ix foreach", "ix evict 1", "ix sset 0 3 1", "ix sget 0 2",
-			"ix getc 1", "ix foreach", "ix clear", "ix foreach", "ix sget 1 0", "ix sdel 0 2", "ix evict 4", "ix getf 1"},
+			"ix getc 1", "ix foreach", "ix clear", "ix foreach", "ix sget 1 0", "ix sdel 0 2", "ix evict 4", "ix getf 1", "ix getft 3", "ix gettf 3", "ix gettf 3", "ix foreach"},
 	},
 	rule: "at least three storages created and two evicted/cleared",
 }
